@@ -118,4 +118,45 @@ def substVars (vdefs : List (VarDef F)) (supplied : List (String × Val F)) : Na
     | .obj kvs => .obj (kvs.map (fun p => (p.1, substVars vdefs supplied fuel p.2)))
     | v => v
 
+/-! ### conformance (the property's first clause, written independently of the coercers) -/
+
+/-- a scalar leaf the resolver may receive for scalar `s`: null, or the declared Go kind, in range / finite -/
+def leafOk (ext : Ext F) (s : Scalar) (g : GoVal F) : Bool :=
+  match g with
+  | .nil => true
+  | g =>
+    (g.kind == s.inKind || (s == .int64 && g.kind == .i32)) &&
+    (match s, g with
+     | .int, .int _ n => inRange32 n
+     | .int64, .int _ n => inRange64 n
+     | .float, .flt _ x => ext.isFinite x
+     | .float64, .flt _ x => ext.isFinite x
+     | _, _ => true)
+
+def InT.nullable : InT → Bool
+  | .nonNull _ => false
+  | _ => true
+
+/-- conformance of a value to an input type; `fuel` bounds the nesting looked at -/
+def conforms (ext : Ext F) (inputs : List (InputDef F)) : Nat → InT → Val F → Bool
+  | 0, _, _ => false
+  | fuel + 1, t, v =>
+    match t with
+    | .scalar s => (match v with | .go g => leafOk ext s g | _ => false)
+    | .enum vals => (match v with | .go .nil => true | .go (.sym s) => vals.contains s | _ => false)
+    | .nonNull b => !v.isNil && conforms ext inputs fuel b v
+    | .list b => (match v with | .go .nil => true | .list xs => xs.all (conforms ext inputs fuel b) | _ => false)
+    | .input name =>
+      (match v with
+       | .go .nil => true
+       | .obj kvs =>
+         (match inputs.find? (fun d => d.name == name) with
+          | none => false
+          | some d =>
+            kvs.all (fun p => d.fields.any (fun f => f.name == p.1)) &&
+            d.fields.all (fun f => match lookup kvs f.name with
+              | some fv => conforms ext inputs fuel f.type fv
+              | none => f.type.nullable))
+       | _ => false)
+
 end Ggql.Args
